@@ -96,10 +96,10 @@ mksets (void)
   addset (M_NT, 1, "$3$");
   addset (M_NT, 0, "$3$$ignored");
   /* bsdicrypt: counts x salts, and every single-character salt change of one base */
-  static const char *const bc[] = { "/...", "0...", "1...", "N...", "J9..", "zz.." };
+  static const char *const bc[] = { "/...", "0...", "1...", "N...", "J9..", "zz..", "/..2" /* bit 20 of the count: 2^20 + 1 iterations */ };
   static const char *const bs[] = { "....", "salt", "zzzz", "Az09" };
-  for (unsigned c = 0; c < 6; c++)
-    for (unsigned k = 0; k < 4; k++)
+  for (unsigned c = 0; c < 7; c++)
+    for (unsigned k = 0; k < (c == 6 ? 1 : 4); k++)
       addset (M_BSDI, c == 4 && k == 1, "_%s%s", bc[c], bs[k]);
   for (int pos = 0; pos < 4; pos++)
     for (int v = 0; v < 64; v += 9)
